@@ -1209,6 +1209,39 @@ impl CollectionV3 {
     }
 }
 
+/// Verification hook H4 (compiled only with `--cfg ragc_verif`): pass-through wrappers so that the
+/// private catalogue (de)serialisers can be driven directly, without the zstd calls of the batch API.
+#[cfg(ragc_verif)]
+impl CollectionV3 {
+    pub fn verif_serialize_sample_names(&self) -> Vec<u8> {
+        self.serialize_sample_names()
+    }
+    pub fn verif_deserialize_sample_names(&mut self, data: &[u8]) -> Result<()> {
+        self.deserialize_sample_names(data)
+    }
+    pub fn verif_serialize_contig_names(&self, id_from: usize, id_to: usize) -> Vec<u8> {
+        self.serialize_contig_names(id_from, id_to)
+    }
+    pub fn verif_deserialize_contig_names(&mut self, data: &[u8], i_sample: usize) -> Result<()> {
+        self.deserialize_contig_names(data, i_sample)
+    }
+    pub fn verif_serialize_contig_details(&mut self, id_from: usize, id_to: usize) -> [Vec<u8>; 5] {
+        self.serialize_contig_details(id_from, id_to)
+    }
+    pub fn verif_deserialize_contig_details(&mut self, v_data: &[Vec<u8>; 5], i_sample: usize) -> Result<()> {
+        self.deserialize_contig_details(v_data, i_sample)
+    }
+    pub fn verif_split_string(s: &str) -> Vec<String> {
+        Self::split_string(s)
+    }
+    pub fn verif_encode_split(prev_split: &[String], curr_split: &[String]) -> Vec<u8> {
+        Self::encode_split(prev_split, curr_split)
+    }
+    pub fn verif_samples_loaded(&self) -> usize {
+        self.samples_loaded
+    }
+}
+
 #[cfg(test)]
 mod tests {
     use super::*;
